@@ -38,6 +38,16 @@ func toTables(x interface{}) map[string]*engine.Table {
 				tab.Rows = append(tab.Rows, vals.ToValues(r))
 			}
 		}
+		if rp, ok := t["repeat"]; ok {
+			// the listed rows repeated k times (long inputs: faults beyond the engine's internal buffers)
+			base := tab.Rows
+			for k := 1; k < vals.Int(rp); k++ {
+				tab.Rows = append(tab.Rows, base...)
+			}
+		}
+		if ps, ok := t["push"].(string); ok {
+			tab.Push = ps
+		}
 		if fa, ok := t["fail_at"]; ok {
 			// the source produces rows 1..fail_at-1 and then returns an error (a read error / malformed row in a real datasource)
 			p := vals.Int(fa)
@@ -161,7 +171,13 @@ func sqlRun(args []string) error {
 			if o, ok := c["optimize"].(bool); ok {
 				opt = o
 			}
-			results[i] = resultJSON(c["id"], engine.Run(c["sql"].(string), tabs, opt))
+			r := engine.Run(c["sql"].(string), tabs, opt)
+			n := len(r.Records)
+			if cnt, ok := c["count_only"].(bool); ok && cnt {
+				r.Records = nil // long inputs: report the number of rows only
+			}
+			results[i] = resultJSON(c["id"], r)
+			results[i]["nrows"] = n
 		}(i, c, tabs)
 	}
 	wg.Wait()
